@@ -208,6 +208,63 @@ unsafe impl Trace for Zst {
 }
 impl Finalize for Zst {}
 
+macro_rules! zst_aligned {
+    ($name:ident, $a:expr) => {
+        #[repr(align($a))]
+        pub struct $name;
+        unsafe impl Trace for $name {
+            fn trace(&self, _: &mut Context<'_>) {}
+        }
+        impl Finalize for $name {}
+    };
+}
+zst_aligned!(Z16, 16);
+zst_aligned!(Z64, 64);
+zst_aligned!(Z4096, 4096);
+
+fn zst_checks<T: Trace + 'static>(v1: T, v2: T, base: u32) {
+    let c = Cc::new(v1);
+    let a = (&*c) as *const T as usize;
+    check(a % core::mem::align_of::<T>() == 0, base + 1); // aligned for T although T is zero-sized
+    let d = c.clone();
+    check((&*d) as *const T as usize == a && Cc::ptr_eq(&c, &d), base + 2);
+    let e = Cc::new(v2);
+    check(!Cc::ptr_eq(&c, &e), base + 3);
+    drop(d);
+    drop(e);
+    match any_below(2) {
+        0 => drop(c),
+        _ => check(c.try_unwrap().is_ok(), base + 4),
+    }
+    check(heap_live() == 0 && state::allocated_bytes().unwrap_or(1) == 0, base + 5);
+}
+
+/// Small payloads whose box has trailing padding, moved out by try_unwrap (the allocation must be released with its real layout).
+fn small_unwrap<T: Trace + Copy + PartialEq + 'static>(v: T, base: u32) {
+    let b0 = state::allocated_bytes().unwrap_or(1);
+    let c = Cc::new(v);
+    check(state::allocated_bytes().unwrap_or(0) > b0, base + 1);
+    match c.try_unwrap() {
+        Ok(x) => check(x == v, base + 2),
+        Err(_) => check(false, base + 3),
+    }
+    check(state::allocated_bytes().unwrap_or(1) == b0 && heap_live() == 0, base + 4);
+}
+
+#[no_mangle]
+pub fn h_layout_small() {
+    match any_below(7) {
+        0 => zst_checks(Z16, Z16, 100),
+        1 => zst_checks(Z64, Z64, 110),
+        2 => zst_checks(Z4096, Z4096, 120),
+        3 => small_unwrap::<u8>(any_u8(), 200),
+        4 => small_unwrap::<u16>(any_u16(), 210),
+        5 => small_unwrap::<[u8; 13]>([any_u8(); 13], 220),
+        _ => small_unwrap::<[u16; 3]>([any_u16(); 3], 230),
+    }
+    cover(1);
+}
+
 #[no_mangle]
 pub fn h_layout_zst() {
     let c = Cc::new(Zst);
